@@ -93,7 +93,7 @@ def make_gen(rng, csts, cxx_safe=False, params=False):
 def value_case(rng, csts, stratum):
     """-> dict(formula, tree, env, gen, extra) for one well-formed formula of the given stratum"""
     cxx_safe = stratum in ("cxx",)
-    params = stratum == "params"
+    params = stratum in ("params", "param-exponent")
     g = make_gen(rng, csts, cxx_safe=cxx_safe, params=params)
     if stratum == "cxx-int":
         g.f1 = [f for f in g.f1 if f not in ("ln", "H")]
@@ -122,6 +122,14 @@ def value_case(rng, csts, stratum):
         a, _ = g.arith(rng.randint(1, 3))
         k = rng.randint(0, 2)
         t = ("+", c, a) if k == 0 else (("*", a, c) if k == 1 else ("f2", "max", c, a))
+    elif stratum == "param-exponent":     # x ** P0 with an integer-valued parameter
+        g.pars["P0"] = float(rng.randint(2, 5))
+        g.pars["Q0"] = g.pars["P0"] * 2 + 1
+        a, ia = g.arith(rng.randint(1, 3))
+        a, ia = g.fit(a, ia, 0.1, 50.0)
+        if a is None:
+            return None
+        t = ("+", ("**", a, ("par", "P0")), ("par", "Q0"))
     else:
         g.conditional = False
         t, iv = g.tree(depth)
@@ -157,6 +165,11 @@ def folded_parameters(t):
                 rec(ch, f)
     rec(t, False)
     return inside - outside
+
+
+def exponent_parameters(t):
+    """parameters standing alone as the exponent of a **"""
+    return {n[2][1] for n in E.walk(t) if n[0] == "**" and n[2][0] == "par"}
 
 
 def line(cid, mode, formula, varlist, params, extra):
@@ -258,9 +271,9 @@ def signature(err):
 
 
 # ------------------------------------------------------------------------------------ value half (worker)
-VALUE_STRATA = [("arith", 0.45), ("cond", 0.16), ("cxx", 0.2), ("params", 0.1), ("cond-left-paren", 0.012), ("cond-nested", 0.012), ("cond-cste-then", 0.012),
+VALUE_STRATA = [("arith", 0.446), ("param-exponent", 0.004), ("cond", 0.16), ("cxx", 0.2), ("params", 0.1), ("cond-left-paren", 0.012), ("cond-nested", 0.012), ("cond-cste-then", 0.012),
                 ("cxx-int", 0.012), ("cxx-int-max", 0.012), ("cxx-ln", 0.012), ("cxx-H", 0.012)]
-EXPECTED_DEFECT_STRATA = ("cond-left-paren", "cond-nested", "cond-cste-then", "cxx-int", "cxx-int-max", "cxx-ln", "cxx-H")
+EXPECTED_DEFECT_STRATA = ("param-exponent", "cond-left-paren", "cond-nested", "cond-cste-then", "cxx-int", "cxx-int-max", "cxx-ln", "cxx-H")
 
 
 def value_shard(args):
@@ -348,7 +361,12 @@ def value_shard(args):
             if k == "cvp":
                 held = set(x for x in unhex(val).split(",") if x)
                 missing = set(E.parameters(c["tree"])) - held
-                if missing - folded_parameters(c["tree"]):
+                missing -= folded_parameters(c["tree"])
+                if missing and missing <= exponent_parameters(c["tree"]):
+                    out["viol"].append(("getParametersNames:parameter-as-integer-exponent", "in %r the parameter %s is the exponent of ** and has an integer "
+                                        "value: it is folded into power<N> when the formula is analysed; getParametersNames does not list it and it cannot "
+                                        "be changed into a variable" % (c["formula"], sorted(missing)), rp))
+                elif missing:
                     out["viol"].append(("getParametersNames:%s" % st, "getParametersNames of %r misses %s" % (c["formula"], sorted(missing)), rp))
                 continue
             if k in ("rd", "cv"):
@@ -525,7 +543,7 @@ def mutate(rng, toks):
     return out.strip()
 
 
-PLUS_MINUS_CAP = 4
+PLUS_MINUS_CAP = 25
 HAND = ["a+-b", "--a", "a--b", "a-+b", "+a", "a+", "a**", "**a", "a*/b", "(a", "a)", "()", "", " ", "a b", "2 3", "sin", "sin()", "sin(,)", "max(a)",
         "max(a,b,c)", "power<>(a)", "power<2>", "power<2>(a", "power<a>(b)", "power<2,>(a)", "power<2,3>(a)", "power<,2>(a)", "Cste::", "Cste::Z", "::R", "a?b:c", "a<b?1", "a<b?1:", "a<b?:2", "?1:2",
         "a<b<c?1:2", "a<b?1:c<d?2:3", "1e", "1e+", "1.2.3", "2x", "x2", "a+-b*c", "-a+-b", "a*-b", "a/-b", "a**-b", "a+-(b)", "(a)+-b", "sin(a+-b)",
